@@ -1891,6 +1891,11 @@ func (a *Agent) validateNonSTUNTraffic(local Candidate, remote netip.AddrPort) (
 
 // GetSelectedCandidatePair returns the selected pair or nil if there is none.
 func (a *Agent) GetSelectedCandidatePair() (*CandidatePair, error) {
+	// Like every other accessor of agent state, report closure instead of a stale pair.
+	if err := a.loop.Err(); err != nil {
+		return nil, err
+	}
+
 	selectedPair := a.getSelectedPair()
 	if selectedPair == nil {
 		return nil, nil //nolint:nilnil
